@@ -166,6 +166,7 @@ func genBoxProps(c *Ctx, which string) {
 	genIndexedFiles(c, which, files, names)
 	genModelBoxes(c, which)
 	genTrees(c, which, seeds)
+	genTopLevelEdits(c, which, files, names)
 	if which != "C01" {
 		genMdatHistories(c, which)
 		for i, d := range files {
@@ -1427,4 +1428,89 @@ func checkLazySetData(c *Ctx, which string, d []byte, name string) {
 		}
 	}
 	c.Eval(req)
+}
+
+// topLevelSpans: [start,end) of the top-level boxes of a file (nil when the file does not tile)
+func topLevelSpans(d []byte) [][2]int {
+	var out [][2]int
+	p := 0
+	for p < len(d) {
+		if p+8 > len(d) {
+			return nil
+		}
+		sz := uint64(binary.BigEndian.Uint32(d[p:]))
+		if sz == 1 {
+			if p+16 > len(d) {
+				return nil
+			}
+			sz = binary.BigEndian.Uint64(d[p+8:])
+		}
+		if sz < 8 || uint64(p)+sz > uint64(len(d)) {
+			return nil
+		}
+		out = append(out, [2]int{p, p + int(sz)})
+		p += int(sz)
+	}
+	return out
+}
+
+// genTopLevelEdits: files whose top-level box sequence was edited (a box duplicated, dropped, exchanged with its
+// neighbour, an empty mdat / free box inserted): most are no longer valid files, and that is the point - whatever one
+// decode path accepts and reproduces exactly the other path must accept too (C03), accepted ones must round-trip (C01)
+// and size consistently (C02).
+func genTopLevelEdits(c *Ctx, which string, files [][]byte, names []string) {
+	type src struct {
+		d    []byte
+		name string
+	}
+	var srcs []src
+	for i, d := range files {
+		if len(d) <= 300000 {
+			srcs = append(srcs, src{d, names[i]})
+		}
+	}
+	r := rand.New(rand.NewSource(c.Seed*104729 + 5))
+	for it := 0; it < c.N(12, 120); it++ {
+		if d, name := genMixedProtection(r); d != nil {
+			srcs = append(srcs, src{d, "mixed-protection(" + name + ")"})
+		}
+	}
+	for _, sc := range srcs {
+		sp := topLevelSpans(sc.d)
+		if len(sp) < 2 {
+			continue
+		}
+		for k := 0; k < c.N(8, 40); k++ {
+			i := r.Intn(len(sp))
+			box := sc.d[sp[i][0]:sp[i][1]]
+			var out []byte
+			var what string
+			switch r.Intn(5) {
+			case 0: // duplicate box i right after itself
+				if len(box) > 100000 {
+					continue
+				}
+				out = append(append(append([]byte{}, sc.d[:sp[i][1]]...), box...), sc.d[sp[i][1]:]...)
+				what = fmt.Sprintf("box %d (%s) duplicated", i, string(box[4:8]))
+			case 1: // drop box i
+				out = append(append([]byte{}, sc.d[:sp[i][0]]...), sc.d[sp[i][1]:]...)
+				what = fmt.Sprintf("box %d (%s) dropped", i, string(box[4:8]))
+			case 2: // exchange with the next box
+				if i+1 >= len(sp) {
+					continue
+				}
+				next := sc.d[sp[i+1][0]:sp[i+1][1]]
+				out = append(append(append(append([]byte{}, sc.d[:sp[i][0]]...), next...), box...), sc.d[sp[i+1][1]:]...)
+				what = fmt.Sprintf("boxes %d and %d exchanged", i, i+1)
+			case 3: // an empty mdat after box i
+				out = append(append(append([]byte{}, sc.d[:sp[i][1]]...), 0, 0, 0, 8, 'm', 'd', 'a', 't'), sc.d[sp[i][1]:]...)
+				what = fmt.Sprintf("empty mdat after box %d (%s)", i, string(box[4:8]))
+			default: // a free box after box i
+				out = append(append(append([]byte{}, sc.d[:sp[i][1]]...), 0, 0, 0, 12, 'f', 'r', 'e', 'e', 1, 2, 3, 4), sc.d[sp[i][1]:]...)
+				what = fmt.Sprintf("free box after box %d (%s)", i, string(box[4:8]))
+			}
+			checkWholeFile(c, which, out, sc.name+": "+what)
+			c.Count("top-level-edit")
+		}
+	}
 }
